@@ -46,6 +46,20 @@ func C13_writer_reader() {
 		vAssert((f.rsv&4 != 0) == vAnd(i == 0, comp), "wr.rsv1_on_first_frame_only")
 		vAssert(f.rsv&3 == 0, "wr.rsv23_zero")
 	}
+	// the writer is reused for a connection without compression (Reset, no SetExtensions): its
+	// messages carry no RSV1 whatever the previous user's message state was
+	if vChoose("reuse", 2) == 1 {
+		dst2 := &vRecW{}
+		w.Reset(dst2, st, ws.OpBinary)
+		w.Write(p)
+		w.Flush()
+		fs2, ok2 := vParse(dst2.all)
+		vAssert(ok2, "wr.reused_whole_frames")
+		for _, f := range fs2 {
+			vAssert(f.rsv == 0, "wr.reused_writer_without_extension_sets_no_rsv")
+		}
+		return
+	}
 	if len(fs) == 0 {
 		return
 	}
